@@ -621,6 +621,16 @@ Proof.
     pose proof (upd_ctx_fixed rc provs capo timeout freq total) as Hf. cbv zeta in Hf.
     eapply (Hput c rc); try exact Erc; try reflexivity; tauto.
   - exfalso. eapply Hne. reflexivity.
+  - apply h_mod_update_gen in H. destruct H as (rc & t & capo & Erc & _ & _ & ->).
+    pose proof (upd_thr_fixed rc t provs capo timeout freq total) as Hf. cbv zeta in Hf.
+    eapply (Hput c rc); try exact Erc; try reflexivity; tauto.
+  - apply h_mod_pause_spec in H. destruct H as (rc & Erc & _ & _ & _ & ->).
+    eapply (Hput c rc); try exact Erc; reflexivity.
+  - apply h_mod_start_spec in H. destruct H as (rc & Erc & _ & _ & ->).
+    eapply (Hput c rc); try exact Erc; try apply ctxs_started; try reflexivity.
+    unfold started. destruct (negb _ && negb _); reflexivity.
+  - apply h_mod_kill_spec in H. destruct H as (rc & Erc & _ & _ & ->).
+    eapply (Hput c rc); try exact Erc; reflexivity.
 Qed.
 
 Lemma TC_expire_one cfg s c :
@@ -912,6 +922,10 @@ Proof.
   - apply h_update_ctx_spec in H. destruct H as (rc & capo & _ & _ & _ & _ & _ & _ & _ & _ & _ & ->).
     left. reflexivity.
   - exfalso. eapply Hne. reflexivity.
+  - left. mod_shape H; reflexivity.
+  - left. mod_shape H; reflexivity.
+  - left. mod_shape H; reflexivity.
+  - left. mod_shape H; reflexivity.
 Qed.
 
 Theorem C12_callback_new_one cfg s c rc : get c (ctxs s) = Some rc ->
@@ -973,6 +987,14 @@ Proof.
     + destruct (C12_callback_msg_other _ _ _ _ Hcfg HI Hwf Hne H) as [->|(c1 & ->)];
         [intros; discriminate|reflexivity|rewrite count_cons; cbn [is_cbstate]; lia].
     + exfalso. eapply Hne. reflexivity.
+    + destruct (C12_callback_msg_other _ _ _ _ Hcfg HI Hwf Hne H) as [->|(c1 & ->)];
+        [intros; discriminate|reflexivity|rewrite count_cons; cbn [is_cbstate]; lia].
+    + destruct (C12_callback_msg_other _ _ _ _ Hcfg HI Hwf Hne H) as [->|(c1 & ->)];
+        [intros; discriminate|reflexivity|rewrite count_cons; cbn [is_cbstate]; lia].
+    + destruct (C12_callback_msg_other _ _ _ _ Hcfg HI Hwf Hne H) as [->|(c1 & ->)];
+        [intros; discriminate|reflexivity|rewrite count_cons; cbn [is_cbstate]; lia].
+    + destruct (C12_callback_msg_other _ _ _ _ Hcfg HI Hwf Hne H) as [->|(c1 & ->)];
+        [intros; discriminate|reflexivity|rewrite count_cons; cbn [is_cbstate]; lia].
   - intros s c0 c HI Hdue Hb. rewrite !ncbstate_blog.
     destruct (due_ctx _ _ _ HI Hdue) as (rc & Grc & _).
     rewrite (expire_one_blog cfg s c0 rc HI Grc), !count_app.
